@@ -224,9 +224,29 @@ class Ctx:
         if not lines:
             return []
         inp = "\n".join(lines) + "\n"
-        p = subprocess.run(["lake", "env", "lean", "--run", "Drivers/%s.lean" % driver],
-                           cwd=LEAN_DIR, input=inp, capture_output=True, text=True,
-                           timeout=timeout)
+        # own session: `lake env` keeps `lean` as its child, so on a timeout (or when this process is
+        # killed) the whole group must go, or the driver survives as an orphan burning a core
+        import signal
+        proc = subprocess.Popen(["lake", "env", "lean", "--run", "Drivers/%s.lean" % driver],
+                                cwd=LEAN_DIR, stdin=subprocess.PIPE, stdout=subprocess.PIPE,
+                                stderr=subprocess.PIPE, text=True, start_new_session=True)
+        _LIVE_DRIVERS.add(proc.pid)
+        try:
+            so, se = proc.communicate(inp, timeout=timeout)
+        except subprocess.TimeoutExpired:
+            try:
+                os.killpg(proc.pid, signal.SIGKILL)
+            except OSError:
+                pass
+            proc.communicate()
+            raise LeanError("driver %s: no answer within %d s for %d requests" % (driver, timeout, len(lines)))
+        finally:
+            _LIVE_DRIVERS.discard(proc.pid)
+
+        class _P(object):
+            pass
+        p = _P()
+        p.stdout, p.stderr, p.returncode = so, se, proc.returncode
         out = p.stdout.split("\n")
         if out and out[-1] == "":
             out.pop()
@@ -250,6 +270,22 @@ class Ctx:
         for r in res:
             out.extend(r)
         return out
+
+
+_LIVE_DRIVERS = set()
+
+
+def _kill_live_drivers(*_a):
+    import signal
+    for pid in list(_LIVE_DRIVERS):
+        try:
+            os.killpg(pid, signal.SIGKILL)
+        except OSError:
+            pass
+
+
+import atexit as _atexit
+_atexit.register(_kill_live_drivers)
 
 
 # ---------------------------------------------------------------- known findings
